@@ -40,7 +40,7 @@ MANIFEST = {
     "text": "Bounded symbolic: the inventory produced by the real walker and visitor is checked for every module tree "
             "within the bound by CrossHair partitions ending in 'Confirmed over all paths'.",
     "note": "Trusted: CrossHair/z3; the mypy shim, whose builders are checked against the real mypy on every run. "
-            "mypy itself is outside the claim.",
+            "mypy itself is outside the claim. Known findings: enums nested in classes; superclasses written with type arguments.",
     "technique": "CrossHair symbolic execution of the real walker/visitor on a validated mypy shim; referential-integrity oracle",
 }
 
